@@ -42,7 +42,7 @@ fn spec(tier: Tier) -> CheckSpec {
 		property: "C15",
 		level: "exploration",
 		rule: format!(
-			"exhaustive over configurations of a program family that reads its configuration (external variables, top-level arguments, an imported library file, a recursion of 25 frames, an optional runtime error): (cli) {} — external variables x top-level arguments each in every subset of the flavours {{string, code, string-from-file, code-from-file}}, top-level function with defaulted parameters and no arguments, -J lists over two directories with shadowing, input as file / -e / stdin, output {{json, -S, -y, -f yaml|toml|xml-jsonml|ini|string|json, -m dir, -o file, --line-padding 1}}, --max-stack {{default, 20}}, value and error variants: the real `jrsonnet` executable's stdout (and the files written by -m / -o) equal the manifestation computed through the library API for the same configuration, exit status 0 exactly when the library reports success, non-empty stderr otherwise; (capi) {} of {{ext_var, ext_code, tla_var, tla_code}} subsets x jpath lists x max_stack x string_output x import callback x native callbacks x the six jsonnet_evaluate_* entry points x value/error variants through a C driver linked against the built libjsonnet.so: printed result (double-NUL framing decoded) and error flag equal the library's; (deps) for every import digraph on three files with strict / lazy / never-read / importstr / importbin edges ({} graphs), `jrsonnet-deps` lists exactly the statically reachable files, which include every file an evaluation loads. non-trivial = distinct configuration executed",
+			"exhaustive over configurations of a program family that reads its configuration (external variables, top-level arguments, an imported library file, a recursion of 25 frames, an optional runtime error): (cli) {} — external variables x top-level arguments each in every subset of the flavours {{string, code, string-from-file, code-from-file}}, top-level function with defaulted parameters and no arguments, -J lists over two directories with shadowing, input as file / -e / stdin, output {{json, -S, -y, -f yaml|toml|xml-jsonml|ini|string|json, -m dir, -o file, --line-padding 1}}, --max-stack {{default, 20}}, value and error variants: the real `jrsonnet` executable's stdout (and the files written by -m / -o) equal the manifestation computed through the library API for the same configuration, exit status 0 exactly when the library reports success, non-empty stderr otherwise; (capi) {} of {{ext_var, ext_code, tla_var, tla_code}} subsets x jpath lists x max_stack x string_output x import callback x native callbacks x the six jsonnet_evaluate_* entry points x value/error variants through a C driver linked against the built libjsonnet.so: printed result (double-NUL framing decoded) and error flag equal the library's; (deps) for every one of 26 syntactic positions an import can stand in (array, field, hidden field, computed field name, object local, object assert, parameter default, local, positional and named call argument, conditional, assert, error, comprehension, object extension, index, slice, unary operand) x import kind, and for every import digraph on three files with strict / lazy / never-read / importstr / importbin edges ({} graphs), `jrsonnet-deps` lists exactly the statically reachable files, which include every file an evaluation loads. non-trivial = distinct configuration executed",
 			tier.q("pairwise-complete grid (every pair of dimensions fully crossed around a base configuration)", "the full cross product"),
 			tier.q("pairwise-complete grid", "full cross product"),
 			tier.q(4096, 46656)
@@ -870,9 +870,75 @@ fn deps_case(tree: &Tree, edges: &[u8]) -> (Vec<Violation>, u64) {
 	(vs, fnv(stdout.as_bytes()))
 }
 
+/// every syntactic position an import can stand in: `@` is replaced by `import 'a.libsonnet'` / importstr / importbin
+const IMPORT_POSITIONS: [&str; 26] = [
+	"@",
+	"[@]",
+	"{ f: @ }",
+	"{ f:: @ }",
+	"{ [std.toString(@)]: 1 }",
+	"{ local l = @, f: 1 }",
+	"{ assert std.isObject(@) || true, f: 1 }",
+	"{ f(p = @): 1 }",
+	"local v = @; 1",
+	"local f(p = @) = 1; 1",
+	"local f(p) = 1; f(@)",
+	"local f(p) = 1; f(p = @)",
+	"local f(p, q) = 1; f(1, q = [@])",
+	"function(p = @) 1",
+	"if true then 1 else @",
+	"if std.isObject(@) then 1 else 2",
+	"assert std.isObject(@) || true : 'm'; 1",
+	"assert true : std.toString(@); 1",
+	"error std.toString(@)",
+	"[1 for x in [@]]",
+	"[1 for x in [1] if std.isObject(@) || true]",
+	"{ [k]: 1 for k in std.objectFields(@) }",
+	"(@) { g: 1 }",
+	"(@).f",
+	"std.length([@][0:1])",
+	"-std.length(@)",
+];
+
+fn deps_position_case(tree: &Tree, pos: usize, kind: usize) -> Option<Violation> {
+	let kw = ["import", "importstr", "importbin"][kind];
+	let text = IMPORT_POSITIONS[pos].replace('@', &format!("{kw} 'a.libsonnet'"));
+	tree.write("main/m.libsonnet", text.as_bytes());
+	tree.write("main/a.libsonnet", b"{ f: 1, leaf: importstr 'b.libsonnet' }");
+	tree.write("main/b.libsonnet", b"{}");
+	let o = Command::new(bin("jrsonnet-deps")).current_dir(tree.p("main")).env("RUST_BACKTRACE", "0").env_remove("JSONNET_PATH").arg("m.libsonnet").output().expect("spawn jrsonnet-deps (built by ./check)");
+	let stdout = String::from_utf8_lossy(&o.stdout).to_string();
+	let listed: BTreeSet<String> = stdout.lines().map(|l| Path::new(l).file_name().map_or_else(|| l.to_owned(), |f| f.to_string_lossy().to_string())).collect();
+	// a code import is followed into a.libsonnet (which reaches b through importstr); the other kinds stop at a
+	let want: BTreeSet<String> = if kind == 0 { ["a.libsonnet", "b.libsonnet"].iter().map(|x| (*x).to_owned()).collect() } else { ["a.libsonnet"].iter().map(|x| (*x).to_owned()).collect() };
+	(o.status.code() != Some(0) || listed != want).then(|| Violation {
+		class: format!("jrsonnet-deps misses or adds a file for an {kw} in position `{}`", IMPORT_POSITIONS[pos]),
+		witness: text.clone(),
+		detail: format!("exit {:?}, listed {listed:?}, statically reachable {want:?}\n{}", o.status.code(), String::from_utf8_lossy(&o.stderr)),
+		cost: 1,
+		replay: json!({"kind": "deps-position", "pos": pos, "ikind": kind}),
+	})
+}
+
 fn part_deps(shard: &Shard, journal: &Journal, rep: &mut Report) {
 	let tree = Tree::new(&format!("c15d-{}", shard.idx));
 	setup_graph_tree(&tree);
+	// every syntactic position x import kind
+	let mut pidx = 1_000_000u64;
+	for pos in 0..IMPORT_POSITIONS.len() {
+		for kind in 0..3 {
+			pidx += 1;
+			if !shard.mine(pidx) {
+				continue;
+			}
+			journal.note(pidx, "deps-position", IMPORT_POSITIONS[pos]);
+			let v = deps_position_case(&tree, pos, kind);
+			rep.case(Some(fnv(format!("pos{pos}/{kind}").as_bytes())), u64::from(v.is_none()));
+			if let Some(v) = v {
+				rep.violation(v);
+			}
+		}
+	}
 	let opts: &[u8] = if shard.tier == Tier::Quick { &[E_NONE, E_STRICT, E_LAZY_UNREAD, E_STR] } else { &[E_NONE, E_STRICT, E_LAZY_READ, E_LAZY_UNREAD, E_STR, E_BIN] };
 	let mut plan: Vec<Vec<u8>> = Vec::new();
 	for_each_product(&[opts.len(); 6], |_, c| plan.push(c.iter().map(|i| opts[*i]).collect()));
@@ -913,6 +979,11 @@ fn replay(v: &Value) -> (bool, String) {
 			let (viol, _) = capi_case(&tree, &c);
 			std::env::set_current_dir("/").expect("chdir");
 			(viol.is_some(), scrub(format!("{}\n{}", c.describe(), viol.map(|x| format!("{}\n{}", x.class, x.detail)).unwrap_or_default()), &tree))
+		}
+		"deps-position" => {
+			let tree = Tree::new("c15p-replay");
+			let v2 = deps_position_case(&tree, v["pos"].as_u64().unwrap_or(0) as usize, v["ikind"].as_u64().unwrap_or(0) as usize);
+			(v2.is_some(), scrub(v2.map(|x| format!("{}\n{}", x.class, x.detail)).unwrap_or_else(|| "listing is exact".into()), &tree))
 		}
 		"deps" => {
 			let tree = Tree::new("c15d-replay");
